@@ -5,10 +5,15 @@ CONSTANTS
   StaticKinds <- MC_Static
   Depth = 4
   ShallowDepth = 3
+  Media = {"mem"}
+  Sizes = {"small"}
+  BigSaves = 1
   Variant = "faithful"
 INVARIANT TypeOK
 INVARIANT Stutter
 INVARIANT Idempotent
+INVARIANT SaveLoadOk
+INVARIANT MediumIndependent
 INVARIANT Emit
 PROPERTY StutterStep
 CHECK_DEADLOCK FALSE
